@@ -66,7 +66,8 @@ fn to_py(core: &Core, ind: usize) -> String {
         ),
         Core::Id { lit } => lit.clone(),
         Core::Type { lit, generics } => {
-            if generics.is_empty() {
+            // a type without a name is the parameter list of a callable: `[]` if it is empty
+            if generics.is_empty() && !lit.is_empty() {
                 lit.clone()
             } else {
                 format!("{}[{}]", lit, comma_delimited(generics, ind))
